@@ -348,7 +348,28 @@ def run_query(f, q):
         return {"keys": keys_of(r), "isdict": isinstance(r, dict)}
     if kind == "accessor":
         return run_accessor(f, q)
+    if kind == "axis_method":
+        return {"by_id": axis_method(f, q["method"], val(q["id"])),
+                "by_key": axis_method(f, q["method"], q["key"]) if q.get("key") is not None else None}
     raise ValueError(kind)
+
+
+def axis_method(f, m, axis):
+    """A Field method that takes an axis by identity, on a copy; canonical outcome."""
+    g = f.copy()
+    try:
+        if m == "insert_dimension":
+            h = g.insert_dimension(axis)
+            return {"axes": list(h.get_data_axes(default=())), "shape": list(h.data.shape)}
+        if m == "indices":
+            r = g.indices(**{axis: slice(0, 1)})
+            return {"indices": [str(x) for x in r]}
+        if m == "nc_set_hdf5_chunksizes":
+            g.nc_set_hdf5_chunksizes({axis: 1})
+            return {"chunks": str(g.nc_hdf5_chunksizes())}
+    except Exception as e:
+        return {"err": errclass(e)}
+    raise ValueError(m)
 
 
 def main():
